@@ -278,6 +278,7 @@ void mutex_program() {
         R_BEGIN();
         Mx c;
         c.rel = vf_choice(3);
+        const int pre = vf_choice(2);      // 1: the gates of the contending coroutines are open before they get the mutex: each new owner releases at once, inside the hand-over that resumed it
         mutex::ownership own[4];
         co_awaiter<mutex> aw[4] = {c.mx, c.mx, c.mx, c.mx};
         for (int i = 0; i < n; ++i) if (kinds[i] < 2) c.open[i] = c.gate[i].get_promise();
@@ -300,8 +301,10 @@ void mutex_program() {
             }
             if (i == 0) OP("try_lock on a held mutex allocates nothing", mutex::ownership t = c.mx.try_lock(); vf_out(!t));
         }
+        if (pre) for (int i = 1; i < n; ++i) if (kinds[i] < 2) OP("resolving a future nobody awaits yet allocates nothing", c.open[i]());
         for (int i = 0; i < n; ++i) {      // the mutex is handed over in FIFO order; every holder releases in turn
             if (kinds[i] < 2) {
+                if (!(pre && i >= 1))
                 OP("releasing the mutex from a coroutine (destructor, release(), awaited release()) and handing it over allocates nothing",
                    c.open[i]());
             } else {
